@@ -193,3 +193,11 @@ Qed.
 Example pivot_scale_invariant_recip_witness :
   lu_pivots QIF Qc (q2_lu_recip (scale_row d25_a 2 1 (mkqi 4 1 0 1)) 2) = lu_pivots QIF Qc (q2_lu_recip d25_a 2).
 Proof. vm_compute. reflexivity. Qed.
+
+(* The three instantiations of the model at Q[i] with the reciprocal row scale are the same
+   function: LuQI.q_lu (drv_lin, used by C04), LuQI2.q2_lu_recip (drv_lu2, used by C19) and
+   LuPivot.qp_lu (the instance the scale-invariance theorem is stated for). *)
+Require Import LV.Lin.LuPivot.
+Lemma model_variants_agree :
+  (forall a n, q2_lu_recip a n = qp_lu a n) /\ (forall a n, q_lu a n = qp_lu a n).
+Proof. split; reflexivity. Qed.
